@@ -40,6 +40,8 @@ fn cfg_b(variant: OsVariant, t: u16, p: u16, i1: usize, i2: usize) -> MCfg {
         process_unmapped: false,
         concurrent_tap_hold: false,
         rapid_event_delay: Some(p),
+        layermap: 0,
+        chords_v2: vec![],
     }
 }
 /// Family B with different timeouts on the two one-shot keys (stacking must restart the
@@ -60,6 +62,8 @@ fn cfg_a(variant: OsVariant, t: u16, p: u16, i1: usize) -> MCfg {
         process_unmapped: false,
         concurrent_tap_hold: false,
         rapid_event_delay: Some(p),
+        layermap: 0,
+        chords_v2: vec![],
     }
 }
 
